@@ -2,6 +2,7 @@ package c13
 
 import (
 	"fmt"
+	"strings"
 
 	"seehuhn.de/go/sfnt/cff"
 	"seehuhn.de/go/sfnt/glyph"
@@ -769,6 +770,63 @@ func randEncoding(r *vlib.Rand, nGlyphs int) ([]int, string) {
 	return enc, label
 }
 
+// boundaryEncoding encodes glyphs 1..k (k near 256) with the codes laid out
+// as a random permutation ("perm"), many short runs ("short": 128..255 ranges
+// when k = 256, so that format 0 is not longer than format 1) or a few long
+// runs ("long"); with supplements on the free codes when suppl is set.
+func boundaryEncoding(r *vlib.Rand, k int, layout string, suppl bool) []int {
+	enc := make([]int, 256)
+	var runs []int
+	for left := k; left > 0; {
+		var l int
+		switch layout {
+		case "perm":
+			l = 1
+		case "short":
+			l = vlib.Pick(r, []int{1, 1, 2, 2, 2})
+		case "pairs": // exactly k/2 ranges: for k = 256 both formats take 258 bytes
+			l = 2
+		default:
+			l = r.Range(30, 120)
+		}
+		if l > left {
+			l = left
+		}
+		runs = append(runs, l)
+		left -= l
+	}
+	// the runs take consecutive blocks of codes, in a shuffled order
+	order := make([]int, len(runs))
+	for i := range order {
+		order[i] = i
+	}
+	for i := len(order) - 1; i > 0; i-- {
+		j := r.Intn(i + 1)
+		order[i], order[j] = order[j], order[i]
+	}
+	start := make([]int, len(runs))
+	code := r.Intn(256 - k + 1)
+	for _, i := range order {
+		start[i] = code
+		code += runs[i]
+	}
+	g := 1
+	for i, l := range runs {
+		for j := 0; j < l; j++ {
+			enc[start[i]+j] = g
+			g++
+		}
+	}
+	if suppl {
+		for c := range enc {
+			if enc[c] == 0 && r.Chance(2, 3) {
+				enc[c] = r.Range(1, k)
+			}
+		}
+	}
+	return enc
+}
+
 func randNames(r *vlib.Rand, n int) []int {
 	names := make([]int, n)
 	seen := map[int]bool{0: true}
@@ -826,6 +884,29 @@ func genEncoding(run *vlib.Run, r *vlib.Rand, tier string) {
 	oob := make([]int, 256)
 	oob[10], oob[11] = 1, 1
 	count(emit(run, encLine(oob, []int{0}), true, "encoding-enc", "encoding:gid-beyond-names"), "encoding-enc")
+
+	// 250..256 encoded glyphs: both formats around the limit of the format 0 count byte
+	reps := vlib.Count(tier, 2, 40)
+	for k := 250; k <= 256; k++ {
+		for _, layout := range []string{"perm", "short", "pairs", "long"} {
+			for _, suppl := range []bool{false, true} {
+				for rep := 0; rep < reps; rep++ {
+					enc := boundaryEncoding(r, k, layout, suppl)
+					names := randNames(r, vlib.Pick(r, []int{257, 258, 300, 1000}))
+					res := emit(run, encLine(enc, names), true, "encoding-enc", fmt.Sprintf("encoding:%d-glyphs-%s", k, layout))
+					count(res, "encoding-enc")
+					if strings.HasPrefix(res.impl, "(ok x") && len(res.impl) > 7 {
+						run.Hist[fmt.Sprintf("encoding:%d-glyphs=>format%c%c", k, res.impl[5], res.impl[6])]++
+					}
+					// and the reader on what was written
+					if data, err := cff.VerifC13EncodeEncoding(gidsOf(enc), int32sOf(names)); err == nil {
+						count(emit(run, vlib.Line(vlib.Atom("encoding-read"), vlib.Hex(data), compressInts(names)), true,
+							fmt.Sprintf("encoding-read:%d-glyphs", k)), "encoding-read")
+					}
+				}
+			}
+		}
+	}
 
 	n := vlib.Count(tier, 600, 20000)
 	for i := 0; i < n; i++ {
